@@ -93,7 +93,7 @@ fn run_tape(part: &str, tape: &[u8], cx: &mut Cx) -> Res {
     if part == "related-secrets" {
         // a value hidden under s1 revealed under s1, then under a related s2 (a peer with a different secret), back to back
         let h = gen_hide(&mut t);
-        let s2 = related_secret(&mut t, &h.secret);
+        let s2 = related_secret_for(&mut t, &h.secret, Some(h.avp.attr.to_be_bytes()));
         let v1 = hide(h.avp.attr, &h.payload, &h.secret, &h.rv, &h.lp, &h.ap);
         let v2 = hide(h.avp.attr, &h.payload, &s2, &h.rv, &h.lp, &h.ap);
         for (v, s) in [(&v1, &h.secret), (&v1, &s2), (&v2, &h.secret), (&v2, &s2)] {
